@@ -14,7 +14,13 @@
              bad:panic        the field is the word PANIC (Explain panicked: no text at all)
              skip:<WORD>      the field is another non-hex word (ERR, PARSEPANIC: not a
                               syntactically valid statement, outside C04)
-   `ok` is printed iff the EXTRACTED check_text returns true. *)
+   `ok` is printed iff the EXTRACTED check_text returns true.
+
+   Option -nested (unverified extra screen, applied only to texts the verified checker accepts):
+   prints  bad:nested  when some line contains " (children <digits>)" that is NOT the end of
+   the line, i.e. a label that embeds the header of another node (a sub-node formatted into its
+   parent's text: "each line is one node" is violated although the line structure is a tree).
+   No label of the 113774 ClickHouse golden files contains such a sequence. *)
 open Tree_ex
 
 let rec pos_of_int n =
@@ -58,11 +64,35 @@ let reason = function
   | VTree -> "bad:tree"
   | VKind -> "bad:kind"
 
+let nested_screen = ref false
+
+(* is there " (children <digits>)" followed by something else than a newline? (on the raw bytes) *)
+let has_nested_header (s : string) : bool =
+  let pat = " (children " in
+  let n = String.length s and k = String.length pat in
+  let found = ref false in
+  let i = ref 0 in
+  while not !found && !i + k <= n do
+    if String.sub s !i k = pat then begin
+      let j = ref (!i + k) in
+      while !j < n && s.[!j] >= '0' && s.[!j] <= '9' do incr j done;
+      if !j > !i + k && !j < n && s.[!j] = ')' && !j + 1 < n && s.[!j + 1] <> '\n' then found := true
+    end;
+    incr i
+  done;
+  !found
+
+let string_of_hex s =
+  if s = "-" then "" else
+  String.init (String.length s / 2) (fun i ->
+      Char.chr (hexval s.[2 * i] * 16 + hexval s.[2 * i + 1]))
+
 let verdict field =
   match bytes_of_hex field with
   | None -> if field = "PANIC" then "bad:panic" else "skip:" ^ field
   | Some text ->
-    if check_text node_kinds text then "ok"
+    if check_text node_kinds text then
+      (if !nested_screen && has_nested_header (string_of_hex field) then "bad:nested" else "ok")
     else begin
       match classify node_kinds text with
       | VOk -> "bad:internal"   (* impossible: check_text is defined as classify = VOk *)
@@ -70,6 +100,7 @@ let verdict field =
     end
 
 let () =
+  if Array.length Sys.argv > 1 && Sys.argv.(1) = "-nested" then nested_screen := true;
   let out = Buffer.create 65536 in
   (try
      while true do
